@@ -171,12 +171,21 @@ def run(shard, ctx):
                 y = chords.from_shorthand(r2 + s2)
                 r1 = y[-1]
             x, y = chords.from_shorthand(r1 + s1), chords.from_shorthand(r2 + s2)
-            text = r1 + s1 + "|" + r2 + s2
+            t1, t2 = r1 + s1, r2 + s2
+            if i % 5 and rng.random() < 0.3:
+                # either half may itself be a slash chord (its bass note comes first)
+                if rng.random() < 0.6:
+                    b1 = rng.choice(roots)
+                    x, t1 = [b1] + x, t1 + "/" + b1
+                if rng.random() < 0.5:
+                    b2 = rng.choice(roots)
+                    y, t2 = [b2] + y, t2 + "/" + b2
+            text = t1 + "|" + t2
             exp = CT.polychord(x, y)
             st, c = ctx.call(chords.from_shorthand, text)
             ctx.check("polychord: 'X|Y' is Y's notes then X's notes, immediate repeats dropped", st == "ok" and c == exp,
                       {"shorthand": text}, exp, repr(c), mechanism="polychord")
-            ok = CT.matches(r1, s1, x) and CT.matches(r2, s2, y)
+            ok = CT.matches(r1, s1, x[1:] if "/" in t1[len(r1 + s1):] else x) and CT.matches(r2, s2, y[1:] if "/" in t2[len(r2 + s2):] else y)
             ctx.check("polychord: both halves are formula chords", ok, {"shorthand": text}, None, [x, y])
             ctx.case(("poly", text))
             if i % 4 == 0:
@@ -202,8 +211,6 @@ def run(shard, ctx):
                 good = rng.choice(roots) + rng.choice(sorted(ks))
                 badhalf = rng.choice(["Hm", "Gfoo", "cm7", "C/H", "Xdim"])
                 s = (good + "|" + badhalf) if rng.random() < 0.5 else (badhalf + "|" + good)
-                if s.split("|")[0] == "C/H":
-                    s = good + "|" + badhalf
                 st, v = ctx.call(chords.from_shorthand, s)
                 ctx.check("reject: an unknown shorthand raises the format error", st == "exc" and isinstance(v, (FormatError, NoteFormatError)),
                           {"shorthand": s}, "FormatError / NoteFormatError", repr(v), mechanism="reject:polychord-half")
